@@ -43,7 +43,10 @@ def run(env, res):
         c06_backoff = None
     if c06_backoff is not None:
         c06_backoff.run_backoff(env, res)
-    directed = [('c06', fo.c06_family, env.n(400, 100000)), ('c06-retry-reentry', fo.c06_reentry_family, env.n(160, 100000))]
+    directed = [('c06', fo.c06_family, env.n(400, 100000)), ('c06-retry-reentry', fo.c06_reentry_family, env.n(160, 100000)),
+                ('c06-max', fo.c06_max_family, env.n(120, 100000)), ('c06-fault', fo.c06_fault_family, env.n(90, 100000)),
+                ('c06-text', fo.c06_text_family, env.n(14, 100000)),
+                ('c06-default-backoff', fo.c06_default_backoff_family, env.n(35, 100000))]
     flowcheck.run_streams(env, res, directed, env.n(400, 100000), weights={'fail': 7},
                           random_monitor=flowcheck.monitor_all)
 
